@@ -130,13 +130,20 @@ pub fn run_with(o: &Opts, sub: &'static str) -> i32 {
     for h in hs {
         h.join().unwrap();
     }
+    // anything after a tab in an answer is a side channel for the oracles (side.txt, line-aligned with
+    // impl.txt); impl.txt holds what is compared with the model
     let mut imp = o.writer("impl.txt");
+    let mut side = o.writer("side.txt");
     for r in results.lock().unwrap().iter() {
         for l in r.as_ref().unwrap() {
-            writeln!(imp, "{}", l).unwrap();
+            match l.split_once('\t') {
+                Some((a, b)) => { writeln!(imp, "{}", a).unwrap(); writeln!(side, "{}", b).unwrap(); }
+                None => { writeln!(imp, "{}", l).unwrap(); writeln!(side).unwrap(); }
+            }
         }
     }
     imp.flush().unwrap();
+    side.flush().unwrap();
     eprintln!("worker restarts: {}", restarts.lock().unwrap());
     0
 }
